@@ -199,13 +199,10 @@ class ProvXMLSerializer(Serializer):
                     elif isinstance(value, datetime.datetime):
                         # Exception of the exception, while technically
                         # still correct, do not write XSD dateTime type for
-                        # attributes in the PROV namespaces as the type is
+                        # the PROV time attributes as the type is
                         # already declared in the XSD and PROV XML also does
                         # not specify it in the docs.
-                        if (
-                            attr.namespace.prefix != "prov"
-                            or "time" not in attr.localpart.lower()
-                        ):
+                        if attr not in PROV_ATTRIBUTE_LITERALS:
                             xsd_type = XSD_DATETIME
                     elif isinstance(value, prov.identifier.Identifier):
                         xsd_type = XSD_ANYURI
